@@ -171,7 +171,14 @@ fn c02(cx: &Ctx) {
             // the insert a fetch task performs after its origin resolved: takes effect at some point after the
             // resolution; it may also not happen at all (round closed by an explicit insert)
             let phantom = cx.filter_mod > 0 && k % cx.filter_mod == cx.filter_mod - 1;
-            if !phantom {
+            // the round this origin belongs to was closed before the origin resolved if the fetch that owns the origin
+            // had already been answered with another version (an explicit insert answers the waiters and closes the
+            // round): the late result is then never inserted
+            let closed = cx.log.oplog.iter().any(|q| matches!(&q.op, Op::Fetch { k: kk, ver, .. } if *kk == k && *ver == o.ver) && q.ret < o.done && q.res.tag == Res::HIT && q.res.ver != o.ver);
+            if closed {
+                hist::probe("lin_fetch_round_closed_before_origin_resolved");
+            }
+            if !phantom && !closed {
                 ops.push(LinOp { inv: o.done, ret: end, kind: LinKind::OptionalWrite(o.ver), label: format!("fetch-insert v{}", o.ver) });
             }
         }
